@@ -73,10 +73,10 @@ theorem C07_segmentation_fresh (chunks : List Bytes)
     code, headers in order, body) and leaves exactly the bytes that follow it -/
 theorem C07_written_message_parsed (m : WMsg) (code : Nat) (g : Good m code) (rest : Bytes) :
     parse {} (write m ++ rest) = .ok (⟨m.core code, rest⟩, rest) ∧ (m.core code).msg = m.msg code := by
-  refine ⟨?_, rfl⟩
+  refine ⟨?_, core_msg m code⟩
   simp only [parse, app_fresh, norm_write m code g rest]
   show (if (m.core code).complete = true then _ else _) = _
-  rw [core_complete]; rfl
+  rw [core_complete m code g]; rfl
 
 theorem length_le_writeAll : ∀ (ms : List (WMsg × Nat)), ms.length ≤ (writeAll ms).length := by
   intro ms
@@ -106,15 +106,27 @@ theorem C07_written_stream_any_segmentation (ms : List (WMsg × Nat)) (hg : ∀ 
   refine GoodRun_prefix ms hg _ (chunks.drop k).flatten ?_
   rw [← List.flatten_append, List.take_append_drop, h]
 
-/-- non-vacuity: a typical HAP response and an event satisfy `Good` -/
+/-- the same under the executable well-formedness check the driver applies to the harness's messages -/
+theorem C07_written_stream_checked (ms : List (WMsg × Nat)) (hg : ms.all (fun x => goodB x.1 x.2) = true)
+    (chunks : List Bytes) (h : chunks.flatten = writeAll ms) :
+    feedAll {} chunks = (ms.map (fun x => x.1.msg x.2), .ok {}) :=
+  C07_written_stream_any_segmentation ms
+    (fun x hx => goodB_sound x.1 x.2 (List.all_eq_true.mp hg x hx)) chunks h
+
+/-- non-vacuity: a typical HAP response, an event, a body-less reply and a chunked reply satisfy `Good` -/
 def exResp : WMsg :=
   { version := str "HTTP/1.1", codeText := str "207", reason := str "Multi-Status",
-    headers := [(str "Content-Type", str "application/hap+json")], lenText := str "2", body := str "{}" }
+    headers := [(str "Content-Type", str "application/hap+json")], framing := .length (str "2"), body := str "{}" }
 def exEvent : WMsg :=
   { version := str "EVENT/1.0", codeText := str "200", reason := str "OK",
-    headers := [(str "Content-Type", str "application/hap+json")], lenText := str "4", body := str "null" }
+    headers := [(str "Content-Type", str "application/hap+json")], framing := .length (str "4"), body := str "null" }
 def exNoBody : WMsg :=
-  { version := str "HTTP/1.1", codeText := str "204", reason := str "No Content", headers := [], lenText := [], body := [] }
+  { version := str "HTTP/1.1", codeText := str "204", reason := str "No Content", headers := [], framing := .none, body := [] }
+def exChunked : WMsg :=
+  { version := str "HTTP/1.1", codeText := str "200", reason := str "OK",
+    headers := [(str "Content-Type", str "application/hap+json")],
+    framing := .chunked [(str "a", str "{\"accessor"), (str "21", str "ies\":[{\"aid\":1,\"services\":[]}]}\r\n")],
+    body := str "{\"accessories\":[{\"aid\":1,\"services\":[]}]}\r\n" }
 
 theorem goodHeader_ct : GoodHeader (str "Content-Type", str "application/hap+json") :=
   ⟨by decide +kernel, by decide +kernel, by decide +kernel, by decide +kernel, by decide +kernel, by decide +kernel,
@@ -123,15 +135,29 @@ theorem goodHeader_ct : GoodHeader (str "Content-Type", str "application/hap+jso
 example : Good exResp 207 :=
   ⟨by decide +kernel, by decide +kernel, by decide +kernel, by decide +kernel, by decide +kernel,
    by intro h hh; simp [exResp] at hh; subst hh; exact goodHeader_ct,
-   fun _ => by decide +kernel, fun _ => by decide +kernel, fun _ => by decide +kernel, fun _ => by decide +kernel⟩
+   by show parseDec _ = some _; decide +kernel⟩
 example : Good exEvent 200 :=
   ⟨by decide +kernel, by decide +kernel, by decide +kernel, by decide +kernel, by decide +kernel,
    by intro h hh; simp [exEvent] at hh; subst hh; exact goodHeader_ct,
-   fun _ => by decide +kernel, fun _ => by decide +kernel, fun _ => by decide +kernel, fun _ => by decide +kernel⟩
+   by show parseDec _ = some _; decide +kernel⟩
 example : Good exNoBody 204 :=
   ⟨by decide +kernel, by decide +kernel, by decide +kernel, by decide +kernel, by decide +kernel,
-   by intro h hh; simp [exNoBody] at hh,
-   fun h => absurd rfl h, fun h => absurd rfl h, fun h => absurd rfl h, fun h => absurd rfl h⟩
+   by intro h hh; simp [exNoBody] at hh, rfl⟩
+example : Good exChunked 200 :=
+  ⟨by decide +kernel, by decide +kernel, by decide +kernel, by decide +kernel, by decide +kernel,
+   by intro h hh; simp [exChunked] at hh; subst hh; exact goodHeader_ct,
+   ⟨by decide +kernel, by
+      intro c hc
+      simp only [List.mem_cons, List.not_mem_nil, or_false] at hc
+      rcases hc with rfl | rfl
+      · exact ⟨by decide +kernel, by decide +kernel⟩
+      · exact ⟨by decide +kernel, by decide +kernel⟩⟩⟩
+
+/-- the theorem at work: the chunked reply followed by the event, cut into three reads in the middle of a chunk size
+    and of the event's status line -/
+example : feedAll {} [(writeAll [(exChunked, 200), (exEvent, 200)]).take 99,
+      ((writeAll [(exChunked, 200), (exEvent, 200)]).drop 99).take 50, (writeAll [(exChunked, 200), (exEvent, 200)]).drop 149] =
+    ([exChunked.msg 200, exEvent.msg 200], .ok {}) := by decide +kernel
 
 /-! ### non-vacuity: a concrete stream (one fixed-length HTTP response followed by a chunked EVENT)
 cut inside the status line and inside a chunk -/
